@@ -168,7 +168,13 @@ type c05 struct {
 	// partition bookkeeping for the identity oracle
 	byBits  map[string]attribute.Distinct // exact content -> Distinct of the first set seen with it
 	byDist  map[attribute.Distinct]string // Distinct -> zero-normalised content
+	recent  []c05rep                      // the last few representatives of distinct contents
 	repSets map[string]attribute.Set
+}
+
+type c05rep struct {
+	norm string
+	set  attribute.Set
 }
 
 func idxString(idx []int) string { return fmt.Sprint(idx) }
@@ -392,6 +398,19 @@ func (c *c05) identity(idx []int, s *attribute.Set, model map[string]int) {
 	} else {
 		c.byBits[bits] = d
 		c.repSets[bits] = *s
+		c.recent = append(c.recent, c05rep{norm, *s})
+		if len(c.recent) > 12 {
+			c.recent = c.recent[1:]
+		}
+	}
+	// different content => not Equal, both ways (the method, not only the map identity): against the
+	// most recent representatives of other contents
+	if !nan {
+		for i := range c.recent {
+			if c.recent[i].norm != norm && (s.Equals(&c.recent[i].set) || c.recent[i].set.Equals(s)) {
+				r.FailHere("unequal-content-Equals-true", c.caseDesc(idx, -1), "sets %s and %s are Equal", norm, c.recent[i].norm)
+			}
+		}
 	}
 	// equal identities => same content (up to the sign of zero)
 	if !nan {
@@ -447,7 +466,7 @@ func TestVerifC05(t *testing.T) {
 	for i := range al {
 		jobs = append(jobs, fmt.Sprintf("first=%02d", i))
 	}
-	jobs = append(jobs, "pairs", "long", "encode", "zero")
+	jobs = append(jobs, "pairs", "long", "encode", "zero", "slices", "keyfilters")
 	enum.Jobs(jobs, func(job string) {
 		r := enum.Start("C05", "set")
 		defer r.Finish()
@@ -523,6 +542,87 @@ func TestVerifC05(t *testing.T) {
 					if r.Want() {
 						c.merge(all[i], all[j])
 					}
+				}
+			}
+		case job == "slices":
+			// the slice types with elements (order, length, empty strings inside), negative integers, BOOL
+			// true, a second value under the empty key, IntSlice: every slice <= 3 over this alphabet
+			r.Section(job)
+			al2 := []sym{
+				mkIS("a", 1, 2), mkIS("a", 2, 1), mkIS("a", 1), mkIS("a", -1), mkSS("a", "x"), mkSS("a", "", "x"), mkSS("a", "x", ""),
+				mkBS("a", false, true), mkBS("a", true, false), mkB("a", true), mkI("a", -1), mkI("", 1), mkI("", 2), mkS("", ""),
+			}
+			viaIntSlice := mkIS("a", 1, 2)
+			viaIntSlice.kv = attribute.IntSlice("a", []int{1, 2}) // the []int constructor: same content as Int64Slice
+			al2 = append(al2, viaIntSlice)
+			r.Bound("slices_alphabet", len(al2))
+			c2 := &c05{r: r, al: al2, byBits: map[string]attribute.Distinct{}, byDist: map[attribute.Distinct]string{}, repSets: map[string]attribute.Set{}}
+			for L := 1; L <= 3; L++ {
+				var rec func(idx []int)
+				rec = func(idx []int) {
+					if len(idx) == L {
+						if r.Want() {
+							c2.one(idx)
+							r.Sample(func() any { return c2.caseDesc(idx, -1) })
+						}
+						return
+					}
+					for i := range al2 {
+						rec(append(idx, i))
+					}
+				}
+				rec(nil)
+			}
+		case job == "keyfilters":
+			// attribute/filter.go: NewAllowKeysFilter / NewDenyKeysFilter over every subset of {"", a, b, c},
+			// through NewSetWithFiltered and Set.Filter, on one set holding all four keys and on the empty set
+			r.Section(job)
+			keys := []attribute.Key{"", "a", "b", "c"}
+			full := []attribute.KeyValue{attribute.Int("", 0), attribute.Int("a", 1), attribute.Int("b", 2), attribute.Int("c", 3)}
+			for mask := 0; mask < 16; mask++ {
+				for _, deny := range []bool{false, true} {
+					if !r.Want() {
+						continue
+					}
+					r.Eval()
+					var sub []attribute.Key
+					in := map[attribute.Key]bool{}
+					for i, k := range keys {
+						if mask&(1<<i) != 0 {
+							sub = append(sub, k)
+							in[k] = true
+						}
+					}
+					f := attribute.NewAllowKeysFilter(sub...)
+					name := "NewAllowKeysFilter"
+					if deny {
+						f, name = attribute.NewDenyKeysFilter(sub...), "NewDenyKeysFilter"
+					}
+					cas := map[string]any{"constructor": name, "keys": fmt.Sprint(sub)}
+					wantKept := ""
+					for _, kv := range full {
+						if in[kv.Key] != deny {
+							wantKept += string(kv.Key) + "=" + kv.Value.Emit() + ";"
+						}
+					}
+					render := func(st attribute.Set) string {
+						o := ""
+						for _, kv := range st.ToSlice() {
+							o += string(kv.Key) + "=" + kv.Value.Emit() + ";"
+						}
+						return o
+					}
+					s1, dropped1 := attribute.NewSetWithFiltered(append([]attribute.KeyValue{}, full...), f)
+					whole := attribute.NewSet(full...)
+					s2, dropped2 := whole.Filter(f)
+					if render(s1) != wantKept || render(s2) != wantKept || len(dropped1) != 4-s1.Len() || len(dropped2) != 4-s2.Len() {
+						r.FailHere("key-filter|"+name, cas, "%s(%v): NewSetWithFiltered keeps %q (dropped %d), Set.Filter keeps %q (dropped %d), expected %q", name, sub, render(s1), len(dropped1), render(s2), len(dropped2), wantKept)
+					}
+					e := attribute.NewSet()
+					if k, d := e.Filter(f); k.Len() != 0 || len(d) != 0 {
+						r.FailHere("key-filter|empty set|"+name, cas, "filtering the empty set gives %d kept, %d dropped", k.Len(), len(d))
+					}
+					r.Outcome(name + fmt.Sprint(sub) + wantKept)
 				}
 			}
 		case job == "zero":
